@@ -143,3 +143,22 @@ refactor("c09-table-in-bool-helper",
          [(L, "            if let Some(t) = last_token {\n                match t {\n                    Token::AmpAmp |", "            if let Some(t) = last_token {\n                if !continues_stmt(&t) {\n                    return Some(Ok(span));\n                }\n            }\n        }\n    }\n}\n\nfn continues_stmt(t: &Token) -> bool {\n                match t {\n                    Token::AmpAmp |"),
           (L, "                    Token::SumEquals => {},\n                    _ => {\n                        return Some(Ok(span));\n                    },\n                }\n            }\n        }\n    }\n}", "                    Token::SumEquals => true,\n                    _ => false,\n                }\n}")],
          note="continuation table moved into a bool helper consulted by next()")
+
+# ---- C20 ---------------------------------------------------------------------
+mutant("c20-underscore-test-after-name-set",
+       [(B, "    if name == \"_\" {\n        return Ok(())\n    }\n\n    let (line, col) = name_loc;",
+            "    let (line, col) = name_loc;"),
+        (B, "    names_in_binding.insert(name.to_string());\n\n    match bind_type {",
+            "    names_in_binding.insert(name.to_string());\n\n    if name == \"_\" {\n        return Ok(())\n    }\n\n    match bind_type {")],
+       [("C20", "R20.1")], note="[_, _] := xs now fails as a duplicate name")
+mutant("c20-declare-overwrites",
+       [("src/eval/scope.rs", "        if let Some((_, loc)) = cur_scope.get(name) {\n            return Err(*loc);\n        }\n\n", "")],
+       [("C20", "R20.2")])
+mutant("c20-literal-param-accepted",
+       [(E, "            RawExpr::Int{..} =>\n                return new_invalid_bind_error(\"an integer literal\"),\n            RawExpr::Str{..} =>\n                return new_invalid_bind_error(\"a string literal\"),\n            RawExpr::BinaryOp{..} =>\n                return new_invalid_bind_error(\"a binary operation\"),\n            RawExpr::Range{..} =>\n                return new_invalid_bind_error(\"a range operation\"),\n            RawExpr::Func{..} =>\n                return new_invalid_bind_error(\"an anonymous function\"),\n            RawExpr::Call{..} =>\n                return new_invalid_bind_error(\"a function call\"),\n        }\n    }\n\n    Ok(())\n}\n\n// `value_to_pairs`",
+            "            RawExpr::Int{..} => {},\n            RawExpr::Str{..} =>\n                return new_invalid_bind_error(\"a string literal\"),\n            RawExpr::BinaryOp{..} =>\n                return new_invalid_bind_error(\"a binary operation\"),\n            RawExpr::Range{..} =>\n                return new_invalid_bind_error(\"a range operation\"),\n            RawExpr::Func{..} =>\n                return new_invalid_bind_error(\"an anonymous function\"),\n            RawExpr::Call{..} =>\n                return new_invalid_bind_error(\"a function call\"),\n        }\n    }\n\n    Ok(())\n}\n\n// `value_to_pairs`")],
+       [("C20", "R20.3")])
+mutant("c20-assign-falls-back-to-declare",
+       [(B, "            if !scopes.assign(name, rhs_val) {\n                return new_loc_error(Error::Undefined{\n                    name: name.to_string(),\n                });\n            }",
+            "            if !scopes.assign(name, rhs_val.clone()) {\n                let _ = scopes.declare(name, *name_loc, rhs_val);\n            }")],
+       [("C20", "R20.4")])
